@@ -8,7 +8,7 @@ import torch
 import z3
 
 from ..par import run_tasks
-from ..report import Report, describe_function
+from ..report import Report, describe_function, lazy
 from ..sym.runner import discharge
 from ..sym.scalar import Ctx, SReal, approx
 from ..sym.tensor import LC, Mode, Node, Session, STensor, opaque, unify
@@ -174,6 +174,101 @@ def replay_c06(obname: str, model: Dict[str, Any], info: Any) -> Tuple[bool, str
     return bool(bad), f"{kind} depth={depth} shape={shape} taus={taus}: " + "; ".join(bad or ["matches closed form"])
 
 
+# ------------------------------------------------------------------------------------------ plain-data input, trainable branch
+def h_plain_input(kind: str):
+    """x is plain data (requires_grad = False, e.g. the first layer of a model) and the branch holds a trainable parameter: the branch must still
+    see the upstream gradient unattenuated, and residual_apply must give the parameter the gradient the split / f / add sequence gives it."""
+    def h(c: Ctx) -> None:
+        import unit_scaling.functional as U
+        mk = fo.SymMk(c)
+        info = {"kind": kind, "plain_input": True}
+        with Session():
+            tau = c.real("tau0", 1e-3, 1e3)
+            x = STensor.leaf("x", tuple(fo._lead(mk, 2)), torch.float32, requires_grad=False)
+            w = STensor.leaf("w", x.shape, torch.float32, requires_grad=True)
+            probes: List[LC] = []
+
+            def f(t: STensor) -> STensor:
+                y_ = opaque("fw", [t, w], {}, t.shape, t.meta)
+                node = Node([y_], lambda g: (probes.append(g), [g])[1], "probe") if (Mode.grad and y_.requires_grad) else None
+                return STensor(y_.lc, y_.shape, y_.meta, node=node)
+
+            def run(which: str) -> Tuple[STensor, Any]:
+                w.grad = None
+                if which == "apply":
+                    y = U.residual_apply(f, x, tau)
+                else:
+                    r, sk = U.residual_split(x, tau)
+                    y = U.residual_add(f(r), sk, tau)
+                G = STensor.leaf("G", y.shape, y.dtype)
+                y.backward(G)
+                return y, w.grad
+
+            probes.clear()
+            y, gw = run(kind)
+            seen = list(probes)
+            G = STensor.leaf("G", y.shape, y.dtype)
+            c.oblige("branch: upstream gradient arrives once", z3.BoolVal(len(seen) == 1), info={**info, "claim": "probe"})
+            if seen:
+                _eq_lc(c, "branch receives the unattenuated upstream gradient (plain-data input)", seen[0], G.lc, {**info, "claim": "probe"})
+            other = "split-add" if kind == "apply" else "apply"
+            probes.clear()
+            y2, gw2 = run(other)
+            _eq_lc(c, "residual_apply = split / f / add: same output", y.lc, y2.lc, {**info, "claim": "value"})
+            if gw is None or gw2 is None:
+                c.oblige("residual_apply = split / f / add: same gradient of the branch parameter", z3.BoolVal(gw is None and gw2 is None), info={**info, "claim": "grad"})
+            else:
+                _eq_lc(c, "residual_apply = split / f / add: same gradient of the branch parameter", gw, gw2, {**info, "claim": "grad"})
+            c.oblige("x not modified", z3.BoolVal(x.version == 0), info={**info, "claim": "mod"})
+
+    return h
+
+
+def replay_plain_input(obname: str, model: Dict[str, Any], info: Any) -> Tuple[bool, str]:
+    import unit_scaling.functional as U
+    tau = float(model.get("tau0", 0.5))
+    gen = torch.Generator().manual_seed(0)
+    x = torch.randn(3, 4, generator=gen, dtype=torch.float64)
+    lin = torch.nn.Linear(4, 4).double()
+    g = torch.randn(3, 4, generator=gen, dtype=torch.float64)
+    seen: List[torch.Tensor] = []
+
+    def f(t: torch.Tensor) -> torch.Tensor:
+        out = torch.tanh(lin(t))
+        out.register_hook(lambda gr: seen.append(gr.clone()))
+        return out
+
+    res = {}
+    for which in ("apply", "split-add"):
+        lin.zero_grad()
+        seen.clear()
+        x0 = x.clone()
+        if which == "apply":
+            y = U.residual_apply(f, x0, tau)
+        else:
+            r, sk = U.residual_split(x0, tau)
+            y = U.residual_add(f(r), sk, tau)
+        y.backward(g)
+        res[which] = (y.detach().clone(), lin.weight.grad.clone(), [s_.clone() for s_ in seen], x0)
+    bad = []
+    if not torch.allclose(res["apply"][0], res["split-add"][0], rtol=1e-12, atol=1e-14):
+        bad.append("outputs differ")
+    if not torch.allclose(res["apply"][1], res["split-add"][1], rtol=1e-9, atol=1e-14):
+        bad.append(f"gradient of the branch parameter differs (ratio {float((res['apply'][1] * res['split-add'][1]).sum() / (res['split-add'][1] ** 2).sum()):.6g})")
+    for which in res:
+        if len(res[which][2]) != 1 or not torch.allclose(res[which][2][0], g, rtol=1e-12, atol=0):
+            bad.append(f"{which}: gradient inside the branch is not the upstream gradient")
+        if not torch.equal(res[which][3], x):
+            bad.append(f"{which}: x modified")
+    return bool(bad), f"plain-data x, trainable branch, tau={tau}: " + "; ".join(bad or ["apply = split/f/add, branch sees the upstream gradient"])
+
+
+def task_plain_input(kind: str, timeout: float) -> List[Dict[str, Any]]:
+    torch.set_num_threads(1)
+    return discharge("C06", f"{kind}[plain-data input, trainable branch]", h_plain_input(kind), replay_plain_input, timeout,
+                     base_info={"kind": kind, "plain_input": True})
+
+
 HISTORY_DTYPES = ("bfloat16", "float16", "float32", "float64")
 
 
@@ -261,11 +356,12 @@ def run(rep: Report, only: str = "") -> None:
             for rank, dt in (((0, "float64"), (1, "float32"), (2, "bfloat16"), (3, "float16")) if (thorough and d <= 2) else ((2, "float32"),)):
                 tasks.append((task, (kind, d, rank, dt, timeout)))
     tasks += [(task_history, ("split-add", timeout)), (task_history, ("apply", timeout))]
+    tasks += [(task_plain_input, ("apply", timeout)), (task_plain_input, ("split-add", timeout))]
     if only:
         tasks = [t for t in tasks if only in repr(t[1])]
     tasks.sort(key=lambda t: -t[1][1] if isinstance(t[1][1], int) else 0)
     rep.extend(run_tasks(tasks))
-    rep.functions = [describe_function(f) for f in (U.residual_split, U.residual_add, U.residual_apply)] + fo.encoded_functions()[-4:]
+    rep.functions = [describe_function(f) for f in (lazy(lambda: U.residual_split), lazy(lambda: U.residual_add), lazy(lambda: U.residual_apply))] + fo.encoded_functions()[-4:]
     rep.bounds = {"tau": "[1e-3, 1e3] per layer (symbolic reals)", "x": "any shape (symbolic dims), any values",
                   "branch": "uninterpreted differentiable map with its own vjp symbol: the result holds for every branch function at once",
                   "stacks": f"sequential (split/f/add and residual_apply) depth {list(depths)}, nested depth <= {4 if thorough else 2}",
@@ -278,6 +374,8 @@ def run(rep: Report, only: str = "") -> None:
 
 
 def replay(data: Dict[str, Any]) -> Tuple[bool, str]:
+    if (data.get("info") or {}).get("plain_input"):
+        return replay_plain_input(data["obligation"], data["model"], data.get("info") or {})
     if (data.get("info") or {}).get("history"):
         return replay_history(data["obligation"], data["model"], data.get("info") or {})
     return replay_c06(data["obligation"], data["model"], data.get("info") or {})
